@@ -525,7 +525,39 @@ var storeProfiles = map[string][]int{
 	"c01": {0, 0, 2, 3}, "c02": {1}, "c03": {4, 5}, "c06": {2, 4, 5}, "all": {0, 1, 2, 3, 4, 5},
 }
 
+// a dataset with several hundred entities, listed with small pages by following the tokens
+// (continuation keys whose low byte wraps) and read through the change feed
+func genStoreBig(c *Ctx, profile string) {
+	if !c.Thorough || (profile != "c01" && profile != "c02" && profile != "all") {
+		return
+	}
+	ops := []M{{"op": "createDs", "name": "big"}}
+	id := 0
+	for b := 0; b < 3; b++ {
+		ents := []M{}
+		for k := 0; k < 200; k++ {
+			ents = append(ents, M{"id": fmt.Sprintf("ns3:n%d", id), "deleted": false, "props": M{"ns3:p": id}, "refs": M{}})
+			id++
+		}
+		ops = append(ops, M{"op": "store", "ds": "big", "ents": ents})
+	}
+	for _, sz := range []int{1, 7, 64, 100, 256} {
+		pages := []int{}
+		for k := 0; k < 600/sz+3; k++ {
+			pages = append(pages, sz)
+		}
+		if profile != "c02" {
+			ops = append(ops, M{"op": "q", "q": "list", "ds": "big", "pages": pages})
+		}
+		if profile != "c01" {
+			ops = append(ops, M{"op": "q", "q": "changes", "ds": "big", "since": 0, "limits": pages, "latestOnly": sz%2 == 0})
+		}
+	}
+	doHist(c, M{"ops": ops})
+}
+
 func genStore(c *Ctx, profile string) {
+	genStoreBig(c, profile)
 	n := map[string]int{"quick": 60, "thorough": 900}[c.Tier]
 	if n == 0 {
 		n = 60
